@@ -308,6 +308,47 @@ func rulesC20(c *Ctx) {
 				"the emitted JSON contains a raw piece ("+bad+") that did not pass the escaper")
 		})
 	}
+	// the same emitters writing into a strings.Builder / bytes.Buffer: every written piece is a constant,
+	// an escaped string or indentation
+	for _, name := range []string{"plainStringMapToJSON", "plainStringMapToFormattedJSON"} {
+		f := c.P.Func(pmPkg, "", name)
+		if f == nil {
+			continue
+		}
+		for _, ci := range Calls(f) {
+			if ci.Static == nil || ci.Kind != "call" {
+				continue
+			}
+			q := qualName(ci.Static)
+			if q != "strings.(Builder).WriteString" && q != "bytes.(Buffer).WriteString" {
+				continue
+			}
+			n3++
+			bad := ""
+			for _, p := range flattenTemplate(ci.Arg(0)) {
+				if p.hole == "" || p.hole == "ACC" {
+					continue
+				}
+				os := Origins(p.val, FlowOpts{})
+				okP := allOrigins(os, func(o Origin) bool {
+					switch o.Kind {
+					case "call":
+						return strings.Contains(o.Name, ".formatStringJSON#")
+					case "param":
+						return o.Name == "spaces" || o.Name == "sep"
+					case "const":
+						return true
+					}
+					return false
+				})
+				if !okP {
+					bad = originsString(os)
+				}
+			}
+			c.Check(bad == "", "R3", fmt.Sprintf("emitted piece #%d in plainmap.%s", n3, name), ci.Pos(), "escaped strings, nested emission and indentation only",
+				"the emitted JSON contains a raw piece ("+bad+") that did not pass the escaper")
+		}
+	}
 	c.Floor("R3", n3, 4)
 
 	// ---- R4 translation store --------------------------------------------------------------------------
@@ -510,6 +551,89 @@ func rulesC20(c *Ctx) {
 						return Origin{}, false
 					}
 					okSet = hasOrigin(Origins(ci.Arg(0), FlowOpts{}), isParsed) || hasOrigin(Origins(ci.Arg(0), FlowOpts{Interproc: 3, Stop: stopAtParser}), isParsed)
+				}
+			}
+		}
+		// the store method may travel as a function value: store(tmap) with store = i18.Set / i18.SetDefault
+		// at every place the loader is entered
+		if !okSet {
+			var wide []*ssa.Function
+			seenW := map[*ssa.Function]bool{}
+			for _, g := range group {
+				for _, h := range append([]*ssa.Function{g}, reachableSamePkg(g, 2)...) {
+					if !seenW[h] {
+						seenW[h] = true
+						wide = append(wide, h)
+					}
+				}
+			}
+			for _, g := range wide {
+				for _, ci := range Calls(g) {
+					pp, isP := ci.Common.Value.(*ssa.Parameter)
+					if !isP || ci.Static != nil || ci.Method != nil || len(ci.Common.Args) != 1 {
+						continue
+					}
+					isParsed := func(o Origin) bool { return o.Kind == "call" && strings.Contains(o.Name, "JSONToPlainStringMap#0") }
+					if !hasOrigin(Origins(ci.Arg(0), FlowOpts{}), isParsed) {
+						continue
+					}
+					vals := []ssa.Value{pp}
+					okAll := true
+					for depth := 0; depth < 4; depth++ {
+						var next []ssa.Value
+						again := false
+						for _, v := range vals {
+							// a captured variable of the enclosing function
+							rv := resolve(v)
+							var fv *ssa.FreeVar
+							if x, isFV := rv.(*ssa.FreeVar); isFV {
+								fv = x
+							} else if u, isU := rv.(*ssa.UnOp); isU && u.Op == token.MUL {
+								fv, _ = u.X.(*ssa.FreeVar)
+							}
+							if fv != nil {
+								b := bindingOf(fv)
+								if a, isA := b.(*ssa.Alloc); isA {
+									if st := uniqueStore(a); st != nil {
+										b = st.Val
+									}
+								}
+								if b != nil {
+									next = append(next, b)
+									again = true
+									continue
+								}
+							}
+							if p2, isP2 := resolve(v).(*ssa.Parameter); isP2 {
+								ls := liftSites(p2)
+								if len(ls) == 0 {
+									okAll = false
+								}
+								next = append(next, ls...)
+								again = true
+								continue
+							}
+							next = append(next, v)
+						}
+						vals = next
+						if !again {
+							break
+						}
+					}
+					for _, v := range vals {
+						mc, isMC := resolve(v).(*ssa.MakeClosure)
+						if !isMC {
+							okAll = false
+							continue
+						}
+						fn, _ := mc.Fn.(*ssa.Function)
+						if fn == nil || !(strings.HasSuffix(fn.Name(), "Set$bound") || strings.HasSuffix(fn.Name(), "SetDefault$bound")) {
+							okAll = false
+						}
+					}
+					if okAll && len(vals) > 0 {
+						okSet = true
+					}
 				}
 			}
 		}
